@@ -11,7 +11,9 @@ META = {
 
 
 def run(ctx):
-    run_engine(ctx, "C18", "Build/Props_C18.v", ["C18 ", "C04 "], 6,
+    # "'evaluating' is reported exactly when the body runs (or would, in a dry run)": the comparison of a dry run's evaluating
+    # set with the real build that follows it (oracle text "C13 dry run of ... predicted ...") belongs to C18 as well
+    run_engine(ctx, "C18", "Build/Props_C18.v", ["C18 ", "C04 ", ("C13 dry run of", lambda h, o: " predicted " in o)], 6,
                "Oracle: per-label event shape, run-done once and last with Run's error, output lines delivered once, in order, inside the evaluating window, evaluating iff the body runs.")
     run_linewriter(ctx)
     run_renderers(ctx)
